@@ -209,11 +209,24 @@ func GenPage(t *rapid.T, fonts []FontSpec, id int) Page {
 	p.MediaBox = rapid.SampledFrom([][4]float64{{0, 0, 612, 792}, {0, 0, 595, 842}, {0, 0, 595.28, 841.89}, {-10, -10, 602, 782}}).Draw(t, "mediabox")
 	p.Rotate = rapid.SampledFrom([]int{0, 0, 0, 90, 180, 270}).Draw(t, "rotate")
 	n := rapid.IntRange(1, 8).Draw(t, "nLines")
+	curFont, curSize := -1, 0.0 // the font in effect outside any q ... Q
 	for i := 0; i < n; i++ {
-		fi := rapid.IntRange(0, len(fonts)-1).Draw(t, "font")
+		inherit := curFont >= 0 && rapid.IntRange(0, 3).Draw(t, "inheritFont") == 0
+		fi := curFont
+		if !inherit {
+			fi = rapid.IntRange(0, len(fonts)-1).Draw(t, "font")
+		}
 		b, txt := GenLine(t, fonts, fi, fmt.Sprintf("p%dl%dx", id, i))
-		ln := Line{Font: fi, Bytes: b, Text: txt, Hex: rapid.Bool().Draw(t, "hex")}
-		ln.Size = rapid.SampledFrom([]float64{8, 10, 12, 12, 14, 9.5}).Draw(t, "size")
+		ln := Line{Font: fi, Bytes: b, Text: txt, Hex: rapid.Bool().Draw(t, "hex"), Inherit: inherit}
+		if inherit {
+			ln.Size = curSize
+		} else {
+			ln.Size = rapid.SampledFrom([]float64{8, 10, 12, 12, 14, 9.5}).Draw(t, "size")
+			ln.Saved = rapid.IntRange(0, 3).Draw(t, "saved") == 0
+			if !ln.Saved {
+				curFont, curSize = fi, ln.Size
+			}
+		}
 		ln.X = float64(rapid.IntRange(36, 300).Draw(t, "x"))
 		ln.Y = float64(740 - 40*i - rapid.IntRange(0, 15).Draw(t, "dy"))
 		p.Lines = append(p.Lines, ln)
